@@ -2,7 +2,7 @@
    Statements quantify over every scan instant, dry-mode flag, API server content, node group (options, controller
    memory — locked or not, any trackers, i.e. also the memory of a freshly restarted controller — and failure
    oracles), cloud group and listed nodes / pods. *)
-From Esc Require Import Examples proofs.BaseProofs proofs.ScanTheorems.
+From Esc Require Import Examples proofs.BaseProofs proofs.ScanTheorems proofs.ScanRun proofs.ScanRunTheorems.
 
 (* every terminate / delete call of a group's scan is about a node of that scan's view which is uncordoned, seen
    outside dry mode, and (a) escalator-tainted with a readable time more than soft in the past and no group pods,
@@ -48,3 +48,9 @@ Print Assumptions c01_unreadable_never_reaped.
 Example c01_ex : removal_targets (r_calls (ex_scan ex_opts gstate0 4800))
                = [(Some [105; 51], None); (None, Some 203); (Some [105; 50], None); (None, Some 202)].
 Proof. vm_compute. reflexivity. Qed.
+
+(* over a whole RunOnce: the checker evaluated by the correspondence holds of every group journal the model produces
+   (group names and cloud group names pairwise distinct) *)
+Theorem c01_run_once : forall s, wf_groups s -> for_groups check_C01_group s (run_journals s) = true.
+Proof. exact run_passes_C01. Qed.
+Print Assumptions c01_run_once.
